@@ -46,6 +46,10 @@ func VerifTransformRequest() {
 		v, p := 0.5, 0.9
 		req.Temperature, req.TopP = &v, &p
 		req.StopSequences = []string{"END", gosym.String("stopseq", 1)}
+		// more stop sequences than OpenAI's documented four are still the client's to send
+		for k := []int{0, 3, 7}[gosym.Choice("more_stops", 3)]; k > 0; k-- {
+			req.StopSequences = append(req.StopSequences, "S"+string(rune('0'+k)))
+		}
 	case 2:
 		v := 2.5
 		req.Temperature = &v
@@ -135,7 +139,16 @@ func VerifTransformRequest() {
 	toolChoiceWant := interface{}(nil)
 	tcErr := false
 	if gosym.Param("TOOLS") == 1 {
-		req.Tools = []AnthropicTool{{Name: "fn_0", Description: "d", InputSchema: map[string]interface{}{"type": "object"}}}
+		req.Tools = []AnthropicTool{{Name: "fn_0", Description: "d", InputSchema: map[string]interface{}{"type": "object", "title": "this-request"}}}
+		if gosym.Choice("earlier_request_with_same_tool_name", 2) == 1 {
+			// the translator is long-lived: an earlier request defined a tool of the same name and
+			// description with another schema
+			earlier := AnthropicRequest{Model: "m0", MaxTokens: 8, Messages: []AnthropicMessage{{Role: "user", Content: "hi"}},
+				Tools: []AnthropicTool{{Name: "fn_0", Description: "d", InputSchema: map[string]interface{}{"type": "object", "title": "earlier-request"}}}}
+			er := &http.Request{Method: "POST", Header: http.Header{}, Body: io.NopCloser(bytes.NewReader(gosym.JSONBytes(earlier)))}
+			_, eerr := t.TransformRequest(context.Background(), er)
+			gosym.Assert(eerr == nil, "the earlier request is translated")
+		}
 		switch gosym.Choice("tool_choice", 8) {
 		case 1:
 			req.ToolChoice, toolChoiceWant = "auto", "auto"
@@ -186,7 +199,11 @@ func VerifTransformRequest() {
 	}
 	if len(req.StopSequences) > 0 {
 		ss, ok := o["stop"].([]string)
-		gosym.Assert(ok && len(ss) == 2 && ss[0] == "END" && ss[1] == req.StopSequences[1], "stop sequences carried over")
+		same := ok && len(ss) == len(req.StopSequences)
+		for i := 0; same && i < len(ss); i++ {
+			same = gosym.And(same, ss[i] == req.StopSequences[i])
+		}
+		gosym.Assert(same, "stop sequences carried over, all of them, in order")
 	}
 	gosym.Assert(out.TargetPath == "/v1/chat/completions", "translated requests go to the OpenAI chat path")
 	// flatten what was produced
@@ -257,6 +274,8 @@ func VerifTransformRequest() {
 		if len(ts) == 1 {
 			fn, _ := ts[0]["function"].(map[string]interface{})
 			gosym.Assert(zzStr(ts[0]["type"]) == "function" && zzStr(fn["name"]) == "fn_0" && zzStr(fn["description"]) == "d", "tool definition carried over")
+			params, _ := fn["parameters"].(map[string]interface{})
+			gosym.Assert(zzStr(params["type"]) == "object" && zzStr(params["title"]) == "this-request", "the tool's input schema is this request's own")
 		}
 		switch w := toolChoiceWant.(type) {
 		case nil:
